@@ -1,7 +1,115 @@
 /-
-  Lemmas.SchedC.Progress — (placeholder, filled in below) progress lemmas.
+  Lemmas.SchedC.Progress — enabledness: in a reachable state every thread that
+  is not blocked on a condition variable has an enabled transition, and the
+  stored `next_task` can always be run (its guard — generated — implies the
+  preconditions of the task body: non-empty queue, a unit / slot to take).
 -/
 import LbzVerif.Lemmas.SchedC.Restore
 
 namespace LbzVerif.Model.SchedC
+open LbzVerif.Gen
+
+variable {α σ : Type}
+
+theorem signal_some (ws : List (WPhase α σ)) : ∃ k ws', signal ws k = some ws' := by
+  by_cases h : ws.any (·.isWaiting) = true
+  · obtain ⟨p, hp, hw⟩ := List.any_eq_true.mp h
+    obtain ⟨k, hk⟩ := List.getElem?_of_mem hp
+    have : p = .waiting := by cases p <;> simp [WPhase.isWaiting] at hw ⊢
+    subst this
+    exact ⟨k, ws.set k .ready, by simp [signal, h, hk]⟩
+  · exact ⟨0, ws, by simp [signal, h]⟩
+
+theorem unlock_some (c : Cfg) (s : State α σ) : ∃ k s', unlock c s k = some s' := by
+  unfold unlock
+  dsimp only
+  by_cases hc : ((reselect c s).nextTask.isSome || finished c (reselect c s)) = true
+  · obtain ⟨k, ws', hk⟩ := signal_some (reselect c s).ws
+    exact ⟨k, _, by rw [if_pos hc, hk]; rfl⟩
+  · exact ⟨0, _, by rw [if_neg hc]⟩
+
+/-- a worker at the loop head can always take its step: the stored
+    `next_task` is runnable (queue non-empty, resource available), or it waits,
+    or it exits. -/
+theorem head_enabled {c : Cfg} {s : State α σ} (sel : SelInv c s) (i : Nat) :
+    ∃ k s', runHead c s i k = some s' := by
+  unfold runHead
+  cases hn : s.nextTask with
+  | none =>
+    simp only
+    split
+    · exact ⟨0, _, rfl⟩
+    · exact ⟨0, _, rfl⟩
+  | some t =>
+    have hrdy := selectTask_ready (sel.symm.trans hn)
+    cases t with
+    | collect =>
+      simp only [Task.ready, cCanCollect, view, Bool.and_eq_true, Bool.not_eq_true',
+        decide_eq_true_eq, List.isEmpty_eq_false_iff] at hrdy
+      obtain ⟨⟨_, hq⟩, hwu⟩ := hrdy
+      have hwu := of_decide_eq_true hwu
+      cases hq' : s.collQ with
+      | nil => exact absurd hq' hq
+      | cons ib q =>
+        obtain ⟨k, s', hk⟩ := unlock_some c
+          (setW { s with collQ := q, workUnits := s.workUnits - 1 } i (.c1 ib))
+        refine ⟨k, s', ?_⟩
+        simp only [runTask, hq']
+        rw [if_neg (by omega)]; exact hk
+    | collectSeq =>
+      simp only [Task.ready, cCanCollectSeq, view, Bool.and_eq_true, Bool.or_eq_true,
+        decide_eq_true_eq, Option.isSome_map] at hrdy
+      obtain ⟨_, hwu⟩ := hrdy
+      obtain ⟨k, s', hk⟩ := unlock_some c
+        (setW { s with unfinished := none
+                       workUnits := if s.unfinished.isNone then s.workUnits - 1 else s.workUnits
+                       collQ := s.collQ.tail, collectToken := false }
+          i (.s1 s.unfinished s.collQ.head?))
+      refine ⟨k, s', ?_⟩
+      simp only [runTask]
+      have : (s.unfinished.isNone && s.workUnits == 0) = false := by
+        rcases hwu with h | h
+        · have h := of_decide_eq_true h
+          have : (s.workUnits == 0) = false := by simp; omega
+          simp [this]
+        · cases hu : s.unfinished <;> simp [hu] at h ⊢
+      rw [this]; exact hk
+    | transmit =>
+      simp only [Task.ready, cCanTransmit, view, Bool.and_eq_true, Bool.not_eq_true',
+        Bool.or_eq_true, decide_eq_true_eq, List.isEmpty_eq_false_iff] at hrdy
+      obtain ⟨hq, hos⟩ := hrdy
+      cases hq' : s.transQ with
+      | nil => exact absurd hq' hq
+      | cons w q =>
+        obtain ⟨k, s', hk⟩ := unlock_some c
+          (setW { s with transQ := q, outSlots := s.outSlots - 1 } i (.t1 w))
+        refine ⟨k, s', ?_⟩
+        simp only [runTask, hq']
+        have : s.outSlots ≠ 0 := by
+          rcases hos with h | h
+          · have h := of_decide_eq_true h; omega
+          · have h := of_decide_eq_true h.1; omega
+        rw [if_neg this]; exact hk
+    | reorder =>
+      simp only [Task.ready, cCanReorder, view, Bool.and_eq_true, Bool.not_eq_true',
+        List.isEmpty_eq_false_iff] at hrdy
+      cases hq' : s.reordQ with
+      | nil => exact absurd hq' hrdy.1
+      | cons w q =>
+        have : (runTask c s i 0 .reorder).isSome = true := by simp [runTask, hq']
+        obtain ⟨s', hs'⟩ := Option.isSome_iff_exists.mp this
+        exact ⟨0, s', hs'⟩
+
+/-- a thread is *active*: it is not blocked on a condition variable (worker in
+    `xwait`, reader with no free input slot, writer with nothing to write) and
+    has not finished. -/
+def Active (s : State α σ) : Prop :=
+  (∃ p ∈ s.ws, p.isWaiting = false ∧ p.isExited = false) ∨
+  s.rd = .hold ∨ s.rd = .eofPending ∨ (s.rd = .idle ∧ 0 < s.inSlots) ∨
+  s.wr.isSome ∨ s.outputQ ≠ []
+
+/-- workers never sit in the impossible phase `s1 none none`
+    (`assert(iblk != NULL)` in `do_collect_seq`) -/
+def NoBadS1 (s : State α σ) : Prop := ∀ p ∈ s.ws, p ≠ .s1 none none
+
 end LbzVerif.Model.SchedC
